@@ -7,7 +7,11 @@ IDS = [json.loads(l)["id"] for l in open(os.path.join(ROOT, "properties.jsonl"))
 NOTE_COMMON = ("Trusted: Lean 4.33 kernel + {propext, Classical.choice, Quot.sound} (audited per theorem on every run); "
                "tools/extract.py (+ pyexpr2lean.py) regenerating lean/Cider/Gen from the live code; the correspondence harness "
                "(op dispatch, float-vs-rational tolerance 1e-9, exception => exc); frozen Spec tables. Python/NumPy arithmetic is "
-               "modelled with exact rationals, not verified. ")
+               "modelled with exact rationals, not verified. The correspondence also varies what surrounds the call: objects built from raw strings "
+               "with white space, from files, handed back by moves / shuffles, or duplicated with copy / deepcopy / pickle; other public calls, "
+               "setters and repeated calls made first on the same or on another live object; argument containers and numeric types; very long "
+               "inputs; and a sample of every check's cases (all rejection cases first) is re-evaluated in a child interpreter started with "
+               "python -O and with RuntimeWarning raised as an error (not for C17-C19). ")
 CHECKS = {
  "C01": ("Lean theorems for every charge pattern: kappa = -1 iff delta-max = 0; otherwise kappa is delta/delta-max with ratios in (1,1.1) "
          "reported as 1; kappa >= 0; kappa <= 1 iff delta < 1.1*delta-max; every member of the documented family and the permutant returned "
